@@ -109,6 +109,12 @@ def obligations(tier, seed):
         members.append(("chain-%s" % profiles.KN[k], {"tasks": [{"w": "$w0", "due": "$d0"}, {"w": "$w1", "due": "$d1"}, {"w": "$w2", "due": "$d2"}],
                                                         "edges": [[0, 1, 0], [0, 2, k]], "teams": profiles.layout_workers("shared2", 3), "run": {"max_time": 12}},
                         [["w0", 0, wmax], ["w1", 0, wmax], ["w2", 0, wmax], ["d1", 0, 3], ["d2", 0, 3]], {"d0": -1}))
+    members.append(("chain-subtask", {"tasks": [{"w": "$w0", "due": "$d0"}, {"w": "$w1", "due": "$d1", "subproject": True}, {"w": "$w2", "due": "$d2"}], "edges": [[0, 1, 0], [1, 2, 0]],
+                                      "teams": profiles.layout_workers("shared2", 3), "run": {"max_time": 12}},
+                    [["w0", 1, 3], ["w1", 1, 3], ["w2", 1, 2]], {"d0": -1, "d1": -1, "d2": -1}))
+    members.append(("fan", {"tasks": [{"w": "$w0", "due": "$d0"}, {"w": "$w1", "due": "$d1"}, {"w": "$w2", "due": "$d2"}, {"w": 1, "due": "$d3"}],
+                            "edges": [[0, 1, 0], [0, 2, 0], [0, 3, 0]], "teams": profiles.layout_workers("shared2", 4), "run": {"max_time": 14}},
+                    [["w0", 1, 2], ["w1", 1, 2], ["w2", 1, 2], ["d1", 0, 2], ["d2", 0, 2], ["d3", 0, 2]], {"d0": -1}))
     # a worker with personal absence steps (a parameter of the model that a backward run must leave alone)
     members.append(("chain-workerabs", {"tasks": [{"w": "$w0", "due": "$d0"}, {"w": "$w1", "due": "$d1"}, {"w": "$w2", "due": "$d2"}], "edges": [[0, 1, 0], [0, 2, 0]],
                                         "teams": [{"targets": [0, 1, 2], "workers": [{"skills": {"0": 1, "1": 1, "2": 1}, "abs": ["$a0", "$a1"]}, {"skills": {"0": 1, "1": 1, "2": 1}}]}],
